@@ -56,7 +56,7 @@ func ioBody(c03 bool, depth int, pairs [][2]string) func(x *engine.X) {
 }
 
 func c01DFS(tier string, st ioStage) *engine.DFS {
-	return &engine.DFS{Name: stageName("io", tier, st), Body: ioBody(false, st.depth, ioPairs(ioKinds)), Procs: 16, WorkerProcs: 2, ShardDepth: 3,
+	return &engine.DFS{Name: stageName("io", tier, st), Body: ioBody(false, st.depth, append(ioPairs(ioKinds), [2]string{"reg", ""}, [2]string{"reg", "fifo-r"})), Procs: 16, WorkerProcs: 2, ShardDepth: 3,
 		MaxDeviations: st.dev, MaxPoints: 200, HangTimeout: 20 * time.Second}
 }
 
@@ -64,7 +64,7 @@ func C01(tier string) *engine.Report {
 	rep := engine.NewReport("C01", tier, "exploration")
 	var tot engine.DFSTotals
 	done := runLadder(rep, &tot, tier, func(st ioStage) *engine.DFS { return c01DFS(tier, st) })
-	tot.Fill(rep, "all action sequences up to the depth bound over two real objects (all 28 unordered pairs of {Dial conn, accepted conn, FIFO read end, FIFO write end, packet conn, listener, AsyncAdapter}) sharing one IO, with raw-syscall peers; "+
+	tot.Fill(rep, "all action sequences up to the depth bound over two real objects (all 28 unordered pairs of {Dial conn, accepted conn, FIFO read end, FIFO write end, packet conn, listener, AsyncAdapter}) sharing one IO, with raw-syscall peers, plus a regular file (which epoll refuses: its deferred operations complete with the registration error, once) alone and next to a FIFO; "+
 		"start variants (forced-deferred, *All) and handler behaviours (re-issue, cancel/close self or other, re-arm on cancellation) are deviations, all combinations up to the bound; non-trivial = at least one action was taken", 0)
 	fillLadder(rep, done, len(rep.Violations) > 0)
 	rep.Assumptions = append(rep.Assumptions, "poll(2) on the object's descriptor is trusted as the readiness oracle", "the order of events inside one epoll batch is the kernel's; both start orders are enumerated, batch order itself is observed, not forced")
@@ -141,15 +141,6 @@ func (d *ioDriver) c03Actions(add func(string, func())) {
 				d.fail("io.Post/error", "Post: %v", err)
 			}
 		})
-	}
-	hasReg := false
-	for _, o := range d.objs {
-		if o.kind == "reg" {
-			hasReg = true
-		}
-	}
-	if !hasReg && len(d.objs) < 3 {
-		add("open-regular-file", func() { d.newObj("reg", "R") })
 	}
 	if d.runPendingSafe() {
 		add("RunPending", func() { d.runPending() })
